@@ -265,7 +265,7 @@ func runWorker(bin string, id string, args []string, procs int, stallLimit time.
 		full = append(full, "-procs", strconv.Itoa(procs))
 	}
 	cmd := exec.Command(bin, full...)
-	cmd.Env = append(os.Environ(), "GORACE=log_path="+race+" halt_on_error=0 history_size=3")
+	cmd.Env = append(os.Environ(), "GORACE=log_path="+race+" halt_on_error=0 exitcode=0 history_size=3")
 	var stderr bytes.Buffer
 	cmd.Stderr = &stderr
 	cmd.Stdout = &stderr
@@ -387,6 +387,7 @@ type Plan struct {
 	Tasks      [][]json.RawMessage `json:"tasks"`
 	Sched      map[string]interface{} `json:"sched"`
 	Faults     []map[string]interface{} `json:"faults"`
+	ReplayMode bool              `json:"replay_mode,omitempty"`
 	Schedule   []Seg             `json:"schedule,omitempty"`
 	Violation  *Violation        `json:"violation,omitempty"`
 	Note       string            `json:"note,omitempty"`
@@ -563,7 +564,7 @@ func minimise(bin string, p *Plan, key string, budget int, deadline time.Time) (
 		}
 	}
 	// 4. schedule: empty, then truncations, then single-segment removal
-	if len(cur.Schedule) > 0 {
+	if cur.ReplayMode && len(cur.Schedule) > 0 {
 		c := clonePlan(cur)
 		c.Schedule = []Seg{}
 		if try(c) {
@@ -772,7 +773,26 @@ func main() {
 			keys = append(keys, k)
 		}
 	}
-	sort.Strings(keys)
+	rank := func(k string) int {
+		switch {
+		case strings.HasPrefix(k, "race:"):
+			return 0
+		case strings.HasPrefix(k, "nondeterministic-result:"):
+			return 1
+		case strings.HasPrefix(k, "order-dependence:"):
+			return 2
+		case strings.HasPrefix(k, "panic-mismatch:"):
+			return 3
+		}
+		return 4
+	}
+	sort.Slice(keys, func(i, j int) bool {
+		if rank(keys[i]) != rank(keys[j]) {
+			return rank(keys[i]) < rank(keys[j])
+		}
+		return keys[i] < keys[j]
+	})
+	minimisedByRank := map[int]int{}
 	rc := 0
 	nviol := 0
 	var reported []map[string]interface{}
@@ -798,11 +818,12 @@ func main() {
 			}
 			continue
 		}
-		if len(reported) >= 4 {
-			fmt.Printf("C19 violated (not minimised, report limit reached): %s in %d run(s), first index %d\n", k, len(g.recs), g.recs[0].Index)
+		if len(reported) >= 3 || minimisedByRank[rank(k)] >= 2 {
+			fmt.Printf("C19 violated (also; not minimised, most likely the same root cause as above): %s in %d run(s), first index %d\n", k, len(g.recs), g.recs[0].Index)
 			rc = 1
 			continue
 		}
+		minimisedByRank[rank(k)]++
 		// pick the smallest failing run
 		best := g.recs[0]
 		for _, r := range g.recs {
@@ -821,6 +842,7 @@ func main() {
 			// fall back to regeneration from the seed (same decisions, PRNG-driven)
 			gen := clonePlan(&plan)
 			gen.Schedule = nil
+			gen.ReplayMode = false
 			gen.Faults = nil
 			gen.Note = "replayed by regeneration from the run seed"
 			rr2, err2 := replayPlan(bin, gen)
